@@ -422,6 +422,8 @@ class Interp(object):
             return self.apply_op(f, args, kwargs)
         if isinstance(f, Inst):
             return self.call_inst(f, args, kwargs)
+        if isinstance(f, Opaque):
+            return Opaque(f.desc + '()')
         raise Undecided('call of %r' % (f,))
 
     # operator application ----------------------------------------------------
@@ -569,7 +571,8 @@ class Interp(object):
                 except Exception:
                     raise Undecided('class attribute %s.%s' % (obj.ci.name,
                                                                name))
-            raise PyRaise('AttributeError')
+            raise PyRaise('AttributeError', ast.parse(
+                '%s.%s' % (obj.ci.name, name)).body[0])
         if isinstance(obj, OpV):
             return self.op_attr(obj, name)
         if isinstance(obj, Vec) or isinstance(obj, PVec):
@@ -580,6 +583,8 @@ class Interp(object):
             if name in obj.attrs:
                 return obj.attrs[name]
             raise PyRaise('AttributeError')
+        if isinstance(obj, Opaque) and not obj.desc.startswith('np.nan'):
+            return Opaque(obj.desc + '.' + name)
         if isinstance(obj, _Ufuncs):
             return self.ufunc_attr(obj, name)
         if obj is NPV:
@@ -600,8 +605,13 @@ class Interp(object):
         if isinstance(obj, slice) and name in ('start', 'stop', 'step'):
             return getattr(obj, name)
         if isinstance(obj, list) and name in ('count', 'index', 'extend',
-                                              'insert', 'pop'):
-            return Builtin('list.' + name, getattr(obj, name))
+                                              'insert', 'pop', 'remove'):
+            def lm(*a, **k):
+                try:
+                    return getattr(obj, name)(*a, **k)
+                except (ValueError, IndexError) as e:
+                    raise PyRaise(type(e).__name__)
+            return Builtin('list.' + name, lm)
         if isinstance(obj, dict) and name in ('pop', 'get'):
             def pop(k, d=None, obj=obj, name=name):
                 if name == 'pop':
@@ -835,8 +845,16 @@ class Interp(object):
                 if not isinstance(n, int):
                     raise Undecided('np.%s(%r)' % (name, n))
                 fill = {'empty': None, 'zeros': 0, 'ones': 1}[name]
+                dt = k.get('dtype')
+                if name == 'zeros' and (dt is True.__class__ or (
+                        isinstance(dt, Builtin) and dt.name == 'bool')):
+                    fill = False
                 return SArr([fill] * n)
             return Builtin('np.' + name, mk)
+        if name == 'copy':
+            def cp(a, **k):
+                return SArr(list(a.items)) if isinstance(a, SArr) else a
+            return Builtin('np.copy', cp)
         if name in ('empty_like', 'zeros_like'):
             def mkl(a, **k):
                 if isinstance(a, SArr):
@@ -862,6 +880,11 @@ class Interp(object):
         if name in ('any', 'all', 'less', 'greater', 'less_equal',
                     'greater_equal'):
             return Builtin('np.' + name, lambda *a, **k: Opaque('np.' + name))
+        if name == 'logical_not':
+            def lnot(v):
+                items = v.items if isinstance(v, SArr) else list(v)
+                return SArr([not self.truth_value(x) for x in items])
+            return Builtin('np.logical_not', lnot)
         if name == 'random':
             return ModuleV('np.random')
         raise Undecided('np.%s' % name)
@@ -1128,6 +1151,21 @@ class Interp(object):
                         raise Undecided('array store of %d values into %d '
                                         'entries' % (len(vals), n))
                     obj.items[idx] = vals
+                    return
+                if isinstance(idx, (list, SArr)):
+                    ii = idx.items if isinstance(idx, SArr) else idx
+                    if ii and all(isinstance(i, bool) for i in ii):
+                        pos = [k for k, m in enumerate(ii) if m]
+                    else:
+                        pos = list(ii)
+                    vals = v.items if isinstance(v, SArr) else (
+                        list(v) if isinstance(v, (list, tuple))
+                        else [v] * len(pos))
+                    if len(vals) != len(pos):
+                        raise Undecided('fancy store of %d values into %d '
+                                        'entries' % (len(vals), len(pos)))
+                    for k, val in zip(pos, vals):
+                        obj.items[k] = val
                     return
                 raise Undecided('array store index %r' % (idx,))
             if isinstance(obj, PVec) and isinstance(idx, int):
@@ -1398,6 +1436,10 @@ class Interp(object):
                     return v
                 if isinstance(idx, (list, SArr)):
                     ii = idx.items if isinstance(idx, SArr) else idx
+                    if ii and all(isinstance(i, bool) for i in ii):
+                        if len(ii) != len(obj.items):
+                            raise Undecided('mask length')
+                        return SArr([v for v, m in zip(obj.items, ii) if m])
                     return SArr([obj.items[i] for i in ii])
             except IndexError:
                 raise PyRaise('IndexError')
@@ -1426,6 +1468,8 @@ class Interp(object):
         for op, cn in zip(n.ops, n.comparators):
             right = self.ev(cn, scope, func)
             r = self.cmp1(op, left, right, n)
+            if isinstance(r, SArr) and len(n.ops) == 1:
+                return r
             if isinstance(r, _Cond):
                 if len(n.ops) == 1:
                     return r
@@ -1470,6 +1514,9 @@ class Interp(object):
         raise Undecided('comparison %s' % ast.unparse(node))
 
     def equal(self, l, r, node):
+        if isinstance(l, SArr) and is_scalar(r):
+            return SArr([self.truth_value(self.equal(x, r, node), node)
+                         for x in l.items])
         if is_scalar(l) and is_scalar(r):
             d = to_rat(l) - to_rat(r)
             if d.is_const():
@@ -1544,6 +1591,30 @@ class Interp(object):
                 if r >= 0:
                     return l ** r
                 return Rat.const(Fr(l) ** r)
+        if is_scalar(l) and is_scalar(r) and op in (ast.FloorDiv, ast.Mod):
+            a, b = to_rat(l), to_rat(r)
+            if b.is_const() and b.constant().denominator == 1 and \
+                    a.d.is_const():
+                k = int(b.constant())
+                p = a.n * (1 / a.d.constant())
+                q, rem = {}, Fr(0)
+                ok = True
+                for m, c in p.t.items():
+                    if m == ():
+                        if c.denominator != 1:
+                            ok = False
+                        rem = c
+                    elif c.denominator != 1 or int(c) % k != 0:
+                        ok = False
+                    else:
+                        q[m] = Fr(int(c) // k)
+                if ok:
+                    from .ratfun import Poly
+                    if op is ast.Mod:
+                        return int(rem) % k
+                    q[()] = Fr(int(rem) // k)
+                    return Rat(Poly(q))
+            raise Undecided('integer division of %r by %r' % (a, b))
         if is_scalar(l) and is_scalar(r):
             a, b = to_rat(l), to_rat(r)
             if op is ast.Add:
@@ -1769,7 +1840,8 @@ class Interp(object):
         if name in ('tuple', 'list'):
             if not args:
                 return () if name == 'tuple' else []
-            a = args[0].parts if isinstance(args[0], PVec) else args[0]
+            a = args[0].parts if isinstance(args[0], PVec) else (
+                args[0].items if isinstance(args[0], SArr) else args[0])
             return tuple(a) if name == 'tuple' else list(a)
         if name == 'abs':
             v = args[0]
